@@ -216,6 +216,13 @@ def r5_join_agree(c, facts):
         base = MF.slice_back(fn, t['args'][0]['l'], idx) if 'l' in t['args'][0] else {'calls': [], 'args': set()}
         bnames = sorted({x.split('::')[-1] for x, _, _ in base['calls']} - {'deref', 'clone', 'as_ref', 'borrow'})
         shapes[q] = (names, bnames)
+        if q.endswith('declare_import'):
+            # the base of the join is the locator of the module being resolved (a parameter), nothing computed
+            params = {i for i in range(1, fn.mir['argc'] + 1) if 'Locator' in fn.mir['locals'][i]['ty']}
+            if bnames or not (base.get('args', set()) & params):
+                c.bad(R, 'declare_import:join-base-not-own-locator', 'declare_import joins the import path to %s instead of the locator of the module being resolved: an import of a module in another directory binds to a different file than the one module::load loaded' % (bnames or 'a value that is not its locator parameter'))
+            else:
+                c.ok(R, {'declare_import': 'joins relative to its `loc` parameter'})
         if 'module' in names:
             c.ok(R, {'fn': q, 'join_argument_from': names, 'base_from': bnames})
         else:
@@ -226,6 +233,22 @@ def r5_join_agree(c, facts):
             c.bad(R, 'join-argument-derivations-differ', 'module::load derives the import path via %s, declare_import via %s' % (a, b))
         else:
             c.ok(R, {'both': 'same derivation of the relative path', 'via': a})
+        # resolve() hands declare_import its own `loc`
+        rs = facts.fn('oal_compiler::resolve::resolve')
+        di = facts.fn('oal_compiler::resolve::declare_import')
+        if rs is not None and di is not None:
+            ridx = MF.defs_index(rs)
+            okp = False
+            for b2, t2 in rs.calls():
+                info = callee_of(t2)
+                if info and info['id'] == di.id:
+                    for a in t2['args']:
+                        if 'Locator' in a.get('ty', '') and 'l' in a and 2 in MF.slice_back(rs, a['l'], ridx, through_calls=False)['args']:
+                            okp = True
+            if okp:
+                c.ok(R, {'resolve': 'passes the locator of the module being resolved to declare_import'})
+            else:
+                c.bad(R, 'resolve:import-base-not-own-locator', 'resolve() does not hand its own module locator to declare_import')
         # base: load uses the popped module's locator (node_weight), declare_import its `loc` parameter
         if 'node_weight' in shapes[L][1]:
             c.ok(R, {'module::load': 'joins relative to the importing module (node_weight of the popped node)'})
